@@ -23,12 +23,13 @@ type Ctx struct {
 	Stats map[string]int
 	tabd     *tabData
 	immE     *immEngine
+	joinCache map[*ssa.Function]bool
 	VerifDir string
 	Seed     int
 }
 
 func NewCtx(p *prog.Program, tier string) *Ctx {
-	return &Ctx{P: p, Tier: tier, reach: map[string]*prog.Reach{}, dyn: newDynTyper(p), Stats: map[string]int{}}
+	return &Ctx{P: p, Tier: tier, reach: map[string]*prog.Reach{}, dyn: newDynTyper(p), Stats: map[string]int{}, joinCache: map[*ssa.Function]bool{}}
 }
 
 func (c *Ctx) Notef(format string, a ...any) { c.Notes = append(c.Notes, fmt.Sprintf(format, a...)) }
